@@ -1,4 +1,5 @@
 pub mod cek_ref;
+pub mod nterm;
 pub mod evid;
 pub mod par;
 pub mod rterm;
